@@ -813,6 +813,138 @@ fn run_split(out: &mut Vec<(String, String)>, lines: &mut Vec<String>) -> (u64, 
     (queries, n)
 }
 
+// Part 3: begin_read placed inside the gaps of a commit running on another thread. The reader must see the
+// snapshot before or after that commit -- whichever it is -- and keep seeing it while later commits of both
+// durabilities free and reuse pages.
+fn run_commit_gaps(out: &mut Vec<(String, String)>, lines: &mut Vec<String>) -> (u64, usize) {
+    const GAPS: [&str; 24] = [
+        "X.commit", "X.nd_commit", "X.nd_commit.horizon", "X.nd_commit.free", "X.nd_commit.registered", "X.nd_commit.publish", "M.nd.publish",
+        "X.durable_commit", "X.durable_commit.horizon", "X.durable_commit.mem_commit", "M.commit.begin", "X.commit.header1", "X.commit.flush",
+        "X.commit.swap", "M.commit.publish", "X.durable_commit.published", "X.durable_commit.epilogue", "X.epilogue", "X.epilogue.horizon",
+        "X.epilogue.publish", "T.register_nd", "T.clear_pending_nd", "U.clear", "U.extend",
+    ];
+    let ctl = Controller::new(2, &GAPS);
+    ctl.install();
+    let workers = ctl.spawn_workers();
+    let mut queries = 0;
+    let mut n = 0;
+    for pre in ["d", "n", "nn"] {
+        for kind in ["cn", "cd", "cd2"] {
+            'stops: for stop_at in 1..=14usize {
+                let cache = [0usize, 2048, 64 << 20][(n + stop_at) % 3];
+                let file = MemFile::new();
+                let db = Arc::new(open_db(&file, None, cache));
+                let mut spec = Spec::default();
+                let mut stamp = 1u64;
+                let mut setup = || -> Result<(), String> {
+                    stamp += 1;
+                    put_rows(&db, &mut spec, stamp, false, false, false)?;
+                    for c in pre.chars() {
+                        stamp += 1;
+                        put_rows(&db, &mut spec, stamp, c == 'n', false, false)?;
+                    }
+                    Ok(())
+                };
+                if let Err(e) = setup() {
+                    out.push(("c02-history-error".into(), format!("gap {pre}-{kind}-{stop_at}: {e}")));
+                    continue;
+                }
+                let before = spec.clone();
+                stamp += 1;
+                let after_cell: Arc<Mutex<Option<Spec>>> = Arc::new(Mutex::new(None));
+                let (db2, cell2, mut work, st) = (db.clone(), after_cell.clone(), spec.clone(), stamp);
+                let (nd, twopc) = (kind == "cn", kind == "cd2");
+                ctl.submit(1, Box::new(move || match put_rows(&db2, &mut work, st, nd, twopc, false) {
+                    Ok(()) => {
+                        *cell2.lock().unwrap() = Some(work);
+                        "ok".into()
+                    }
+                    Err(e) => format!("ERR({e})"),
+                }));
+                let mut at = String::new();
+                for _ in 0..stop_at {
+                    match ctl.step(1) {
+                        Event::At(name) => at = name,
+                        _ => break 'stops, // the commit has no further gap (or cannot go on): next kind
+                    }
+                }
+                // the reader begins inside the gap (main thread: pause points pass through)
+                let rt = match rv_harness::catch(|| db.begin_read()) {
+                    Ok(Ok(rt)) => rt,
+                    other => {
+                        out.push(("c02-history-error".into(), format!("gap {pre}-{kind}@{at}: begin_read failed: {:?}", other.map(|r| r.map(|_| ()).map_err(|e| e.to_string())))));
+                        while let Event::At(_) = ctl.step(1) {}
+                        continue;
+                    }
+                };
+                // let the commit finish
+                let mut guard_steps = 0;
+                loop {
+                    match ctl.step(1) {
+                        Event::At(_) if guard_steps < 200 => guard_steps += 1,
+                        _ => break,
+                    }
+                }
+                let Some(after) = after_cell.lock().unwrap().take() else {
+                    out.push(("c02-history-error".into(), format!("gap {pre}-{kind}@{at}: the commit on the other thread failed")));
+                    continue;
+                };
+                spec = after.clone();
+                // which commit does the reader see? its table t0 row 0 tells (the stamps differ)
+                let seen = rv_harness::catch(|| -> Result<Option<Vec<u8>>, String> {
+                    let t = rt.open_table(tdef(TNAMES[0])).map_err(|e| e.to_string())?;
+                    Ok(t.get(0).map_err(|e| e.to_string())?.map(|g| g.value().to_vec()))
+                });
+                let snap = match seen {
+                    Ok(Ok(v)) if v.as_ref() == before.tables.get(TNAMES[0]).and_then(|m| m.get(&0)) => before.clone(),
+                    Ok(Ok(v)) if v.as_ref() == after.tables.get(TNAMES[0]).and_then(|m| m.get(&0)) => after.clone(),
+                    other => {
+                        out.push(("c02-snapshot-changed".into(), format!("gap {pre}-{kind}@{at}: a reader begun inside the commit sees neither the state before nor after it: {other:?}")));
+                        continue;
+                    }
+                };
+                let mut rng = Rng::new(11 + n as u64);
+                let mut rd = match make_reader(&db, 0, rt, &snap, stamp, n % 2 == 0, &mut rng) {
+                    Ok(r) => r,
+                    Err(e) => {
+                        out.push(("c02-snapshot-changed".into(), format!("gap {pre}-{kind}@{at}: {e}")));
+                        continue;
+                    }
+                };
+                let mut log = vec![format!("gap pre={pre} kind={kind} at={at} cache={cache}")];
+                for i in 0..5 {
+                    let nd = match (n + stop_at) % 3 { 0 => false, 1 => true, _ => i % 2 == 0 };
+                    stamp += 1;
+                    let r = rv_harness::catch(|| put_rows(&db, &mut spec, stamp, nd, false, false)).unwrap_or_else(|p| Err(format!("panic: {p}")));
+                    if let Err(e) = r {
+                        out.push(("c02-history-error".into(), format!("gap {pre}-{kind}@{at}: a later {} commit failed while the reader is live: {e}", if nd { "non-durable" } else { "durable" })));
+                        break;
+                    }
+                    log.push(format!("{} commit", if nd { "non-durable" } else { "durable" }));
+                    match rv_harness::catch(|| rd.verify(&db, &mut rng)) {
+                        Ok(Ok(q)) => queries += q,
+                        Ok(Err(e)) => {
+                            out.push(("c02-snapshot-changed".into(), format!("gap {pre}-{kind}@{at}: reader begun inside the commit, after later commit #{}: {e}", i + 1)));
+                            break;
+                        }
+                        Err(p) => {
+                            out.push(("c02-reader-panic".into(), format!("gap {pre}-{kind}@{at}: reader panicked after later commit #{}: {p}", i + 1)));
+                            break;
+                        }
+                    }
+                }
+                lines.push(log.join(";"));
+                n += 1;
+                drop(rd);
+            }
+        }
+    }
+    Controller::uninstall();
+    ctl.shutdown();
+    drop(workers);
+    (queries, n)
+}
+
 fn main() {
     rv_harness::silence_panics();
     let args: Vec<String> = std::env::args().collect();
@@ -868,10 +1000,25 @@ fn main() {
     } else {
         (0, 0)
     };
+    let (q3, ngaps) = if only.is_none() {
+        let mut local = vec![];
+        let r = rv_harness::catch(|| run_commit_gaps(&mut local, &mut split_lines));
+        out.extend(local);
+        match r {
+            Ok(x) => x,
+            Err(p) => {
+                out.push(("c02-panic".to_string(), format!("commit-gap scenarios: panic outside the guarded operations: {p}")));
+                (0, 0)
+            }
+        }
+    } else {
+        (0, 0)
+    };
     for l in &split_lines {
         writeln!(hist, "S|{l}").unwrap();
     }
-    queries += q2;
+    queries += q2 + q3;
+    let nsplit = nsplit + ngaps;
     hist.flush().unwrap();
     let mut orc = std::io::BufWriter::new(std::fs::File::create("oracle.txt").unwrap());
     for (k, what) in &out {
